@@ -3,6 +3,20 @@
 # kind: rapid (default) | exhaustive | plain
 # quick/thorough: checks = total rapid cases over all shards; shards = processes; timeout = seconds per shard
 PARTS = {
+    "C15": [
+        {"test": "TestVfC15Seq", "kind": "exhaustive",
+         "quick": {"shards": 4, "timeout": 300, "params": {"maxlen": 7}},
+         "thorough": {"shards": 16, "timeout": 1500, "params": {"maxlen": 9}}},
+        {"test": "TestVfC15Conc",
+         "quick": {"checks": 3000, "shards": 4, "timeout": 300},
+         "thorough": {"checks": 200000, "shards": 16, "timeout": 1500}},
+        {"test": "TestVfC15Forced",
+         "quick": {"checks": 400, "shards": 2, "timeout": 300},
+         "thorough": {"checks": 20000, "shards": 8, "timeout": 1500}},
+        {"test": "TestVfC15Stress",
+         "quick": {"skip": True},
+         "thorough": {"checks": 4800, "shards": 16, "timeout": 1500}},
+    ],
     "C11": [
         {"test": "TestVfC11Split",
          "quick": {"checks": 8000, "shards": 4, "timeout": 300},
@@ -13,6 +27,14 @@ PARTS = {
 LEVEL = {}  # default: exploration
 
 RULES = {
+    "C15": "(Seq) every enabled sequence up to the length bound over {push, urgent push, pop, pop with cancelled context, close} "
+           "for capacities 1..3 against a reference two-class FIFO, invariant after every step; (Conc) rapid-generated 1-4 "
+           "blocking pushers, 1-4 poppers with optional cancellation and an optional closer at generated virtual instants, judged "
+           "at synctest quiescence (conservation, capacity, order, every blocked operation resumed); (Forced) cancellation forced "
+           "between the context check and the condition wait through the verif hook; (Stress, thorough) real goroutines racing "
+           "cancel against pop. Non-trivial: Seq = a pop returned an item and the history has a full-queue refusal, an urgent item "
+           "overtaking a normal one, or an operation after close; Conc = at least one operation blocked and later resumed; "
+           "Forced/Stress = every case. Distinct = distinct case JSON.",
     "C11": "rapid-generated RPCs (0-12 messages, subscriptions, all six control kinds, extension / partial / "
            "test-extension fields, element sizes from 0 to 1.5x the limit) and limits 8..4096; oracle = round trip "
            "by canonical content over the fragments of RPC.split + size rule + no empty fragment + input not mutated. "
@@ -20,14 +42,23 @@ RULES = {
 }
 
 ASSUMPTIONS = {
+    "C15": ["synctest's durable-blocking detection (sync.Cond.Wait is durably blocking) defines quiescence",
+            "the forced interleaving relies on the verif-tagged schedule point in rpcQueue.Pop; other interleavings are whatever the Go scheduler produces"],
     "*": ["Go 1.25 runtime, testing/synctest virtual clock and pgregory.net/rapid v1.3.0 are trusted",
           "the harness is compiled into package pubsub from /repo's working tree (overlay), so it sees the code as it is now"],
     "C11": ["generated protobuf Marshal/Size in pb/ are trusted (used by the oracle to canonicalise content)"],
 }
 
-HOOK_COMMITS = []
+HOOK_COMMITS = ["407c3ed"]
 
 META = {
+    "C15": {
+        "text": "Bounded-exhaustive sequential enumeration (complete for the stated bound) plus generated concurrent histories judged "
+                "at quiescence plus one forced interleaving (the cancel-versus-wait window); finds order, capacity, conservation, "
+                "error-reporting and lost-wake-up defects inside those bounds; concurrency beyond the generated schedules is not covered.",
+        "note": "Trusts testing/synctest, rapid, and the reference FIFO model (60 lines); the forced case needs the verif build tag hook.",
+        "technique": "bounded-exhaustive model-based testing + stateful property-based testing under synctest + forced-schedule fault injection",
+    },
     "C11": {
         "text": "Generated-input search (rapid, thousands to hundreds of thousands of structured RPC x limit cases) against a "
                 "round-trip oracle over canonical content; finds any loss, duplication, reordering, oversize or empty fragment "
